@@ -126,6 +126,9 @@ func stalledOne(h http.Handler, req *http.Request, conn *vfake.Conn, d time.Dura
 	return o
 }
 
+// the harness's own patience: a call that the bridge never ends is given up after 3 s (and reported as outliving its deadline)
+var boundedClient = &http.Client{Timeout: 3 * time.Second}
+
 func enforceOne(entry, shape int, d time.Duration) outcome {
 	conn := mkConn(shape)
 	hdr := fmt.Sprintf("%dm", d.Milliseconds())
@@ -144,7 +147,7 @@ func enforceOne(entry, shape int, d time.Duration) outcome {
 		req, _ := http.NewRequest("POST", srv.URL+"/x", strings.NewReader(`{"message":"hi"}`))
 		req.Header.Set("Grpc-Timeout", hdr)
 		o.start = time.Now()
-		resp, err := http.DefaultClient.Do(req)
+		resp, err := boundedClient.Do(req)
 		if err == nil {
 			body, _ := io.ReadAll(resp.Body)
 			resp.Body.Close()
@@ -199,7 +202,7 @@ func enforceOne(entry, shape int, d time.Duration) outcome {
 		req.Header.Set("Content-Type", "application/grpc-web+proto")
 		req.Header.Set("Grpc-Timeout", hdr)
 		o.start = time.Now()
-		resp, err := http.DefaultClient.Do(req)
+		resp, err := boundedClient.Do(req)
 		if err == nil {
 			body, _ := io.ReadAll(resp.Body)
 			resp.Body.Close()
@@ -271,6 +274,10 @@ func enforcePart(w *vc.Writer, r *vc.Rand) {
 					continue // the stalled client is an http.ResponseWriter that blocks: the two plain-HTTP entries
 				}
 				jobs = append(jobs, job{entry, shape, 60 + r.Intn(120)})
+				if rep == 0 && shape != 3 {
+					// a timeout of zero is a timeout: the call is over at once, with DeadlineExceeded
+					jobs = append(jobs, job{entry, shape, 0})
+				}
 			}
 		}
 	}
